@@ -16,6 +16,7 @@ type GenOpts struct {
 	XTest     bool // allow an external test package
 	Aliases   bool // explicit import aliases in some files
 	Rich      bool // several annotation kinds on the same type
+	Islands   bool // a third of the packages import nothing: several packages without a dependency between them (analysed concurrently by the drivers)
 	Twins     bool // prefer programs with the two same-named packages (and same-named interfaces), all packages importable by all later ones
 }
 
@@ -167,6 +168,9 @@ func (g *gen) genPkg(pkg *Pkg, earlier []*Pkg) {
 	defer func() { g.cur, g.curPkg = nil, nil }()
 	// a package that leaves one earlier package alone: it can still reach that
 	// package's types through the API of the ones it does import
+	if g.o.Islands && len(earlier) >= 1 && g.chance("island", 20) {
+		earlier = nil
+	}
 	if len(earlier) >= 2 && !g.o.Twins && g.chance("narrowImports", 35) {
 		drop := g.pick("dropPkg", len(earlier))
 		kept := append([]*Pkg{}, earlier[:drop]...)
